@@ -437,6 +437,9 @@ func (p *parser) errWithPos(err error, idx int) error {
 
 func (p *parser) pos(i int) string {
 	A := []rune(p.source)
+	if len(A) == 0 {
+		return ""
+	}
 
 	if i < 0 || i >= len(A) {
 		i = 0
